@@ -1304,7 +1304,7 @@ package gorums
 // C04.d: a handler that has released runs concurrently with later ones, so the request object
 // handed to a handler is never handed to (or reused for) a later one: ghost set `handed`.
 //@ func (*orderingServer).NodeStream
-//@   props C03 C04 C10
+//@   props C03 C04 C10 C05
 //@   nopanic C04
 //@   requires s != nil && s.opts != nil && srv != nil
 //@   requires forall(k, "Str", in(k, s.handlers) ==> s.handlers[k] != nil)
@@ -1618,7 +1618,7 @@ package gorums
 // constructors' frames (only the pool's array and fresh arrays are written; results are fresh) are for.
 // The verified precondition takes the nested option to be a leaf (WithNodeList/WithNodeMap/WithNodeIDs).
 //@ func (addNodes).newConfig
-//@   props C14 C15
+//@   props C14 C15 C02
 //@   nopanic C14
 //@   requires mgr != nil && mgr.lookup != nil && len(o.old) > 0
 //@   requires forall(id, in(id, mgr.lookup) ==> mgr.lookup[id] != nil && mgr.lookup[id].id == id)
@@ -1648,7 +1648,7 @@ package gorums
 // sorted by id. Ghosts: T = the temporary slice append(o.old, o.add...) that is ranged
 // over; pos[id] = slot of the node with that id in nodes; src[i] = index in T of nodes[i].
 //@ func (addConfig).newConfig
-//@   props C14 C15 C03
+//@   props C14 C15 C03 C02
 //@   nopanic C14
 //@   requires mgr != nil && len(o.old) > 0
 //@   requires forall(k, 0, len(o.old), o.old[k] != nil) && forall(k, 0, len(o.add), o.add[k] != nil)
@@ -1720,7 +1720,7 @@ package gorums
 //@   ensures[C14.a] result <==> exists(k, 0, len(c), c[k].id == id)
 
 //@ func (nodeIDs).newConfig
-//@   props C14 C15 C03
+//@   props C14 C15 C03 C02
 //@   nopanic C14
 //@   requires mgr != nil && mgr.lookup != nil
 //@   requires forall(id, in(id, mgr.lookup) ==> mgr.lookup[id] != nil && mgr.lookup[id].id == id)
@@ -1763,7 +1763,7 @@ package gorums
 // WithNodeList: one node per distinct address, carrying that address; an address whose
 // generated id is registered for a different address is rejected (C14.g).
 //@ func (nodeList).newConfig
-//@   props C14 C15 C03
+//@   props C14 C15 C03 C02
 //@   nopanic C14
 //@   requires mgr != nil && mgr.lookup != nil
 //@   requires forall(id, in(id, mgr.lookup) ==> mgr.lookup[id] != nil && mgr.lookup[id].id == id)
@@ -1873,7 +1873,7 @@ package gorums
 // result (C14.e): a map whose length is positive has a key, that key was visited, and every
 // visited address has its node in the result.
 //@ func (nodeIDMap).newConfig
-//@   props C14 C15 C03
+//@   props C14 C15 C03 C02
 //@   nopanic C14
 //@   requires mgr != nil && mgr.lookup != nil
 //@   requires forall(id, in(id, mgr.lookup) ==> mgr.lookup[id] != nil && mgr.lookup[id].id == id)
